@@ -916,7 +916,7 @@ def multi_task(arg):
             paths[n] = os.path.join(wd, "f%02d.%s" % (i, e))
             with open(paths[n], "wb") as f:
                 f.write(b)
-        modes = [["-dc"], ["-t"], ["-dc", "-T2"]] + ([["-dcq"], ["-t", "-T4"]] if tier == "thorough" else [])
+        modes = [["-dc"], ["-t"], ["-dc", "-T2"], ["-dc", "-T1"]] + ([["-dcq"], ["-t", "-T4"]] if tier == "thorough" else [])
         single = {}
         for n, e, b in fs:
             for mo in modes:
@@ -941,7 +941,17 @@ def multi_task(arg):
                     elif rc != exp_rc:
                         bad = ("exit-status", "exit status %d, the operands alone give %s -> expected %d (%s)" % (rc, [single[(x, tuple(mo))][0] for x in tp], exp_rc, emsg(err)))
                     elif out != exp_out:
-                        bad = ("stdout", "stdout differs from the concatenation of the single runs: " + describe_diff(out, exp_out))
+                        bad = ("stdout", "stdout differs from the concatenation of the single runs: " + describe_diff(out, exp_out)[1])
+                    else:
+                        # the verdict per operand: xz names the operand in every message about it
+                        et = (err or b"").decode(errors="replace") if isinstance(err, bytes) else (err or "")
+                        blamed = sorted(set(x for x in tp if paths[x] in et))
+                        def _s(x):
+                            e1 = single[(x, tuple(mo))][2]; e1 = e1.decode(errors="replace") if isinstance(e1, bytes) else (e1 or "")
+                            return paths[x] in e1
+                        exp_blamed = sorted(set(x for x in tp if _s(x)))
+                        if blamed != exp_blamed:
+                            bad = ("per-file-verdict", "messages name %s, the operands alone are blamed as %s (%s)" % (blamed, exp_blamed, emsg(err)))
                     if bad:
                         acc.fails.append(("multi:%s:%s" % (bad[0], "mt" if any("T" in m for m in mo) else "st"),
                                           "xz %s %s: %s" % (" ".join(mo), " ".join(tp), bad[1]), json.dumps({"part": "multi", "operands": list(tp), "mode": mo})))
